@@ -102,6 +102,26 @@ def parseOp (s : State) (j : Json) : Option Op :=
   | [Json.str "reopen", Json.bool b] => some (.reopen b)
   | _ => none
 
+def viaOf : Json → Option (Option Cls)
+  | .null => some none
+  | .str c => (Cls.ofString c).map some
+  | _ => none
+
+/-- `["call_delegating", e, via, m, inp, d, dvia, f, finp]`: the call `e.m` (as the program makes it), whose
+body hands work to member `f` of entity `d`; both outcomes are chosen as for a plain call -/
+def delegating? (s : State) (j : Json) : Option (State × Res) :=
+  match opList j with
+  | [Json.str "call_delegating", e, via, Json.str m, Json.str inp, d, dvia, Json.str f, Json.str finp] => do
+    let e ← jInt? e; let d ← jInt? d
+    let m ← Mem.ofString m; let f ← Mem.ofString f
+    let inp ← inputOf inp; let finp ← inputOf finp
+    let via ← viaOf via; let dvia ← viaOf dvia
+    if e < 0 || d < 0 then none else
+    let o ← outcomeOf s e.toNat via m inp
+    let fo ← outcomeOf s d.toNat dvia f finp
+    some (callDelegating s e.toNat via m o d.toNat dvia f fo)
+  | _ => none
+
 def touchJ : Touch → String
   | .none => "none" | .self => "self" | .parent => "parent" | .linked => "linked" | .always => "always"
 def mkindJ : MKind → String
@@ -145,6 +165,9 @@ def handle (st : Option State) (j : Json) : Option State × Json :=
     match st with
     | none => (st, bad "C19: no open file")
     | some s =>
+      match delegating? s j with
+      | some (s', r) => (some s', outJ s' r)
+      | none =>
       match parseOp s j with
       | some op =>
         let (s', r) := step s op
